@@ -136,6 +136,62 @@ def run_known(outcome):
             outcome.notes.append("listed finding %s no longer reproduces on its witness" % k["id"])
 
 
+def run_cli_oracle(outcome, tier, seed):
+    """The same values through the command (standard output a pipe, the writers of main.rs in between): documents whose
+    output is large, with long lines and long strings holding line feeds laid across the 8 KiB and 16 KiB marks.  What the
+    command prints must be what the library writes, and must denote the input value."""
+    import os
+    import shutil
+    import subprocess
+    ok, out = common.build_xt()
+    if not ok:
+        raise RuntimeError("xt binary does not build: " + out[-400:])
+    d = os.path.join(common.BUILD, "run", "C01_cli")
+    shutil.rmtree(d, ignore_errors=True)
+    os.makedirs(d)
+    docs = []
+    for n in range(1100, 1300, 20 if tier == "quick" else 5):
+        docs.append(["s%d" % i for i in range(n)] + ["L" * 3000, {"k": "w" * 1300}])
+    docs.append([{"k%d" % i: "w" * 1300} for i in range(60)])
+    docs.append(["a" * 7000 + "\n" + "b" * 1500, "c" * 9000 + "\n\n" + "d" * 1023, "e" * 70000 + "\n" + "f" * 2000])
+    docs.append({"t": {"long": "x" * 20000, "lines": "\n".join("y" * 1200 for _ in range(30))}})
+    reqs, plans = [], []
+    for i, v in enumerate(docs):
+        text = gen.spell_canonical(v, "json")
+        path = os.path.join(d, "doc%d.json" % i)
+        open(path, "wb").write(text)
+        for to in ("json", "yaml", "msgpack", "toml"):
+            if to == "toml" and not isinstance(v, dict):
+                continue
+            plans.append((v, path, to, len(reqs)))
+            reqs.append({"id": len(reqs), "to": to, "calls": [{"input": shared.hx(text), "from": "json", "mode": "slice"}]})
+    resps = common.harness_batch(reqs)
+    for v, path, to, i in plans:
+        lib = shared.session_result(resps[i])
+        for argv, stdin in ((["-t", to, path], None), (["-t", to, "-f", "json"], open(path, "rb").read())):
+            r = subprocess.run([common.XT_DEBUG] + argv, input=stdin, stdout=subprocess.PIPE, stderr=subprocess.PIPE, timeout=120)
+            info = {"argv": argv[:2] + [os.path.basename(a) for a in argv[2:]], "document": "array/map with long lines, %d bytes of JSON" % os.path.getsize(path),
+                    "to": to, "status": r.returncode, "stderr": r.stderr[:200].decode("utf-8", "replace")}
+            want = bytes.fromhex(lib[2]) if lib[0] == "ok" and lib[2] not in ("-", "") else b""
+            if r.returncode != 0 or lib[0] != "ok":
+                outcome.oracle_failures.append(dict(info, what="a representable document does not translate at the command line"))
+            elif r.stdout != want:
+                k = next((j for j in range(min(len(want), len(r.stdout))) if want[j] != r.stdout[j]), min(len(want), len(r.stdout)))
+                outcome.oracle_failures.append(dict(info, what="standard output of the command (%d bytes) is not the library's translation (%d bytes): "
+                                                            "first difference at byte %d" % (len(r.stdout), len(want), k)))
+            else:
+                try:
+                    back = gen.read_documents(r.stdout, to)
+                    if len(back) != 1 or not gen.values_equal(back[0], v):
+                        outcome.oracle_failures.append(dict(info, what="the command's output, read by an independent reader, does not denote the input value"))
+                except ValueError as e:
+                    outcome.oracle_failures.append(dict(info, what="the command's output is not readable by an independent %s reader: %s" % (to, str(e)[:150])))
+    shutil.rmtree(d, ignore_errors=True)
+    outcome.evaluations += 2 * len(plans)
+    outcome.distinct_nontrivial += 2 * len(plans)
+    outcome.extra["cli_oracle"] = {"documents": len(docs), "runs": 2 * len(plans)}
+
+
 def run(outcome, tier, seed):
     outcome.rule = ("transcoder/value correspondence: scripts as for C11 plus every fault-free script through the Value route; "
                     "fidelity oracle: each (document, spelling, target, supply mode, explicit/detected) read back (non-trivial = each)")
@@ -149,6 +205,7 @@ def run(outcome, tier, seed):
         shared.msgpack_correspondence(outcome, tier, seed, oracle=False)
     jsoncorr.correspondence(outcome, tier, seed)
     run_fidelity(outcome, tier, seed)
+    run_cli_oracle(outcome, tier, seed)
     run_known(outcome)
     listed = {k["id"] for k in common.load_known("C01")}
     for fid in (KNOWN_ID, KNOWN_TOML):
